@@ -121,7 +121,7 @@ type QueryResult struct {
 }
 
 // check runs one query. wantModel lists terms whose values are requested on sat.
-func (s *Solver) check(script string, inputs []*Term, extraValues []*Term, timeoutMs int) QueryResult {
+func (s *Solver) check(script string, inputs []*Term, sels []SelRef, timeoutMs int) QueryResult {
 	start := time.Now()
 	qr := QueryResult{Verdict: Unknown, Solver: s.kind.Name}
 	pre := "(reset)\n"
@@ -167,6 +167,26 @@ func (s *Solver) check(script string, inputs []*Term, extraValues []*Term, timeo
 			ml, err := s.roundTrip(sb.String(), 30*time.Second)
 			if err == nil {
 				parseModel(strings.Join(ml, " "), qr.Model)
+			}
+		}
+		if len(sels) > 0 {
+			var sb strings.Builder
+			sb.WriteString("(get-value (")
+			for _, r := range sels {
+				sb.WriteString(r.Idx + " " + r.Sel + " ")
+			}
+			sb.WriteString("))")
+			ml, err := s.roundTrip(sb.String(), 30*time.Second)
+			if err == nil {
+				vals := parseValueList(strings.Join(ml, " "))
+				for i, r := range sels {
+					if 2*i+1 < len(vals) {
+						idx, _ := new(big.Int).SetString(strings.TrimPrefix(vals[2*i], "0x"), 16)
+						if idx != nil {
+							qr.Model[fmt.Sprintf("%s@%s", r.Arr, idx.String())] = vals[2*i+1]
+						}
+					}
+				}
 			}
 		}
 	default:
@@ -362,7 +382,7 @@ func (p *SolverPool) Solve(asserts []*Term, timeoutMs int, portfolio []SolverKin
 			return QueryResult{Verdict: Unsat, Solver: "simplifier"}
 		}
 	}
-	script, inputs := Script(asserts, extraDecls())
+	script, inputs, sels := ScriptSel(asserts, extraDecls())
 	var last QueryResult
 	arrays := hasArrays(asserts)
 	lam := hasLambda(asserts)
@@ -388,7 +408,7 @@ func (p *SolverPool) Solve(asserts []*Term, timeoutMs int, portfolio []SolverKin
 			last = QueryResult{Verdict: Unknown, Err: err.Error(), Solver: k.Name}
 			continue
 		}
-		r := s.check(script, inputs, nil, timeoutMs)
+		r := s.check(script, inputs, sels, timeoutMs)
 		p.put(s)
 		p.mu.Lock()
 		p.stats.queries++
@@ -432,4 +452,66 @@ func hasHardArith(ts []*Term) bool {
 		}
 	}
 	return false
+}
+
+// parseValueList returns the values of ((expr value) (expr value) ...) in order.
+func parseValueList(s string) []string {
+	var out []string
+	i, n := 0, len(s)
+	for i < n && s[i] != '(' {
+		i++
+	}
+	i++
+	for i < n {
+		for i < n && s[i] != '(' && s[i] != ')' {
+			i++
+		}
+		if i >= n || s[i] == ')' {
+			break
+		}
+		i++
+		// skip the expression (balanced or atom)
+		skipExpr := func() {
+			for i < n && s[i] == ' ' {
+				i++
+			}
+			if i < n && s[i] == '(' {
+				d := 0
+				for i < n {
+					if s[i] == '(' {
+						d++
+					} else if s[i] == ')' {
+						d--
+						if d == 0 {
+							i++
+							return
+						}
+					}
+					i++
+				}
+			} else if i < n && s[i] == '|' {
+				i++
+				for i < n && s[i] != '|' {
+					i++
+				}
+				i++
+			} else {
+				for i < n && s[i] != ' ' && s[i] != ')' {
+					i++
+				}
+			}
+		}
+		skipExpr()
+		for i < n && s[i] == ' ' {
+			i++
+		}
+		st := i
+		skipExpr()
+		out = append(out, normVal(strings.TrimSpace(s[st:i])))
+		for i < n && s[i] != ')' {
+			i++
+		}
+		i++
+	}
+	return out
 }
